@@ -877,6 +877,53 @@ def run_wrap(ctx, eng, cases, meta):
 
 
 # ============================================================================ key creation
+def run_freshness(ctx, eng):
+    """Round 8 (C06O): everything ONE engine instance generates (symmetric keys of mixed sizes, IVs of IV-less Encrypt calls)
+    over several times 4096 octets of output must be pairwise free of shared 8-octet windows: catches material served twice
+    from a buffer, a counter that restarts, a generator reseeded with the same state.  (For independent uniform octets the
+    chance of one shared window in this volume is below 1e-10.)"""
+    rng = ctx.subrng('freshness')
+    t = tables()
+    sizes = []
+    for alg in list(A):
+        if alg.value in t['sym']:
+            sizes += [(alg, ln) for ln in t['sym'][alg.value][2] if 64 <= ln <= 512 and ln % 8 == 0]
+    target = (4 if ctx.tier == 'quick' else 24) * 4096 + 777
+    vals, total = [], 0
+    aes_key = b'\x07' * 16
+    while total < target and sizes:
+        if rng.random() < 0.8:
+            alg, ln = rng.choice(sizes)
+            o, v, _ = call(eng.create_symmetric_key, alg, ln)
+            if o != 'done':
+                continue
+            vals.append(('key %s-%d' % (alg.name, ln), v['value']))
+        else:
+            o, v, _ = call(eng.encrypt, A.AES, aes_key, b'm' * 16, cipher_mode=M.CBC, padding_method=enums.PaddingMethod.PKCS5,
+                           iv_nonce=None, auth_additional_data=None, auth_tag_length=None)
+            if o != 'done' or not v.get('iv_nonce'):
+                continue
+            vals.append(('IV of an IV-less AES-CBC Encrypt', v['iv_nonce']))
+        total += len(vals[-1][1])
+    seen = {}
+    for i, (label, b) in enumerate(vals):
+        for j in range(0, len(b) - 7):
+            w = b[j:j + 8]
+            k = seen.get(w)
+            if k is not None and k[0] != i:
+                viol(ctx, 'freshness', 'generated material repeats octets of an earlier generated value of the same engine',
+                     {'alg': None}, {'value_index': i, 'value': label, 'offset': j, 'earlier_index': k[0], 'earlier': vals[k[0]][0],
+                                      'earlier_offset': k[1], 'generated_before_octets': sum(len(x[1]) for x in vals[:i]),
+                                      'how': 'one CryptographyEngine, create_symmetric_key / encrypt(iv_nonce=None) in this order: '
+                                             + ', '.join(x[0] for x in vals[max(0, k[0] - 1):i + 1][:12])})
+                ctx.count('freshness.values', len(vals))
+                return
+            seen.setdefault(w, (i, j))
+    ctx.count('freshness.values', len(vals))
+    ctx.count('freshness.octets', total)
+    ctx.log('  freshness: %d generated values, %d octets, no shared 8-octet window' % (len(vals), total))
+
+
 def run_create(ctx, eng, cases, meta, rsa_cache):
     rng = ctx.subrng('create')
     t = tables()
@@ -1996,6 +2043,8 @@ def run(ctx):
         ctx.log('  section run_wrap done')
         run_create(ctx, eng, cases, meta, rsa_cache)
         ctx.log('  section run_create done')
+        run_freshness(ctx, eng)
+        ctx.log('  section run_freshness done')
         run_rsa(ctx, eng, cases, meta, rsa_cache)
         ctx.log('  section run_rsa done')
         pss_leading_zero(ctx, eng, rsa_cache)
